@@ -968,6 +968,79 @@ def r14_n(run, fx):
                      "(the read overruns into following data or reports a spurious end of data)" % ("high" if hi else "low" if lo else "?"), "%s:%s" % (b.file, b.line))
 
 
+def r14_e(run, fx, floors=True):
+    """a failing read leaves no effect"""
+    import guards
+    rule = "R14-E"
+    run.rule(rule, "a read of ReadCtxt that fails leaves the cursor where it was: in every Result-returning method of ReadCtxt, once the cursor has been "
+                   "advanced (a store to self.offset, or a call that takes the context by &mut and succeeded) no error exit of the method itself - an "
+                   "Err built here, or a `?` on a later call - is reachable; availability is tested before the first advance, for the whole item")
+    n = 0
+    for b in fx.bodies:
+        if not b.path.startswith("binary::read::ReadCtxt::<'a>::") or b.kind == "Closure":
+            continue
+        if not (b.local_ty(0) or "").startswith("std::result::Result<"):
+            continue
+        # error exits made by this method
+        err_blocks = set()
+        for bi in range(len(b.blocks)):
+            if not b.reachable(bi):
+                continue
+            t = b.term(bi)
+            if t["k"] == "call" and (t["callee"].get("path") or "").endswith("FromResidual::from_residual") and t["dest"]["l"] == 0:
+                err_blocks.add(bi)
+            for st in b.stmts(bi):
+                if st["k"] == "assign" and st["p"]["l"] == 0 and not st["p"]["p"] and st["rv"]["k"] == "agg" and st["rv"].get("vname") == "Err":
+                    err_blocks.add(bi)
+        starts = []
+        for bi in range(len(b.blocks)):
+            if not b.reachable(bi):
+                continue
+            for st in b.stmts(bi):
+                if st["k"] == "assign" and b.local_name(st["p"]["l"]) == "self" and any(isinstance(e, dict) and e.get("n") == "offset" for e in st["p"]["p"]):
+                    starts.append((bi, "the store to self.offset", [x for x in b.succs(bi)] or [bi]))
+            t = b.term(bi)
+            if t["k"] == "call" and t["args"]:
+                ty = (t["args"][0].get("p") or {}).get("ty") or ""
+                if ty.startswith("&mut binary::read::ReadCtxt") and t.get("target") is not None:
+                    name = (t["callee"].get("path") or "?").split("::")[-1]
+                    dty = t["dest"].get("ty") or ""
+                    if dty.startswith(("std::result::Result<", "std::option::Option<")) and not t["dest"]["p"]:
+                        sb = guards.success_blocks(b, t["dest"]["l"])
+                        if not sb:
+                            # the result is handed on unchanged (`T::read_dep(self, args)` as the tail expression): nothing of this method follows
+                            continue
+                        starts.append((bi, "the successful call of %s" % name, sb))
+                    else:
+                        starts.append((bi, "the call of %s" % name, [t["target"]]))
+        if not starts:
+            continue
+        n += 1
+        bad = None
+        for bi, what, froms in starts:
+            seen = set()
+            stack = list(froms)
+            while stack:
+                x = stack.pop()
+                if x in seen or b.blocks[x].get("cleanup"):
+                    continue
+                seen.add(x)
+                if x in err_blocks:
+                    bad = (what, x)
+                    break
+                stack.extend(b.succs(x))
+            if bad:
+                break
+        short = b.path.split("::")[-1]
+        if bad:
+            run.fail(rule, "effect-then-error|%s" % short, "ReadCtxt::%s can return an error of its own after %s has advanced the cursor: a caller that sees the "
+                     "error finds the cursor moved (test the availability of the whole item first)" % (short, bad[0]), b.loc(b.term(bad[1])))
+        else:
+            run.ok(rule, "%s: no own error exit after the cursor moves" % short)
+    if floors:
+        run.floor(rule, "cursor-advancing methods of ReadCtxt", n, 13)
+
+
 def check(run, fx, tier, floors=True):
     r14_u(run, fx, floors)
     kernels = r14_p(run, fx)
@@ -978,6 +1051,8 @@ def check(run, fx, tier, floors=True):
     r14_g(run, fx)
     r14_a(run, fx, floors)
     r14_o(run, fx)
+    if floors or any(b.path.startswith("binary::read::ReadCtxt::<'a>::read_") for b in fx.bodies):
+        r14_e(run, fx, floors)
     if floors or any(b.path.startswith("binary::read::ReadCtxt::<'a>::read_until_nibble") for b in fx.bodies):
         r14_n(run, fx)
     run.analysed["kernels"] = kernels
